@@ -1409,3 +1409,75 @@ mod tests {
         check_output!(resampler);
     }
 }
+
+/// Verification hooks (read-only accessors and re-exports), compiled only with `--cfg rubato_verif`.
+#[cfg(rubato_verif)]
+pub mod verif {
+    use super::*;
+
+    pub fn interp_cubic<T: Sample>(x: T, yvals: &[T; 4]) -> T {
+        super::interp_cubic(x, yvals)
+    }
+    pub fn interp_quad<T: Sample>(x: T, yvals: &[T; 3]) -> T {
+        super::interp_quad(x, yvals)
+    }
+    pub fn interp_lin<T: Sample>(x: T, yvals: &[T; 2]) -> T {
+        super::interp_lin(x, yvals)
+    }
+    pub fn make_interpolator<T: Sample>(
+        sinc_len: usize,
+        resample_ratio: f64,
+        f_cutoff: f32,
+        oversampling_factor: usize,
+        window: WindowFunction,
+    ) -> Box<dyn SincInterpolator<T>> {
+        super::make_interpolator(sinc_len, resample_ratio, f_cutoff, oversampling_factor, window)
+    }
+
+    impl<T: Sample> SincFixedIn<T> {
+        /// chunk_size, last_index, resample_ratio, target_ratio, max_chunk_size.
+        pub fn verif_state(&self) -> Vec<u64> {
+            vec![
+                self.chunk_size as u64,
+                self.last_index.to_bits(),
+                self.resample_ratio.to_bits(),
+                self.target_ratio.to_bits(),
+                self.max_chunk_size as u64,
+            ]
+        }
+        pub fn verif_buffers(&self) -> &Vec<Vec<T>> {
+            &self.buffer
+        }
+        pub fn verif_mask(&self) -> &Vec<bool> {
+            &self.channel_mask
+        }
+        pub fn verif_interpolator(&self) -> &dyn SincInterpolator<T> {
+            self.interpolator.as_ref()
+        }
+    }
+
+    impl<T: Sample> SincFixedOut<T> {
+        /// chunk_size, last_index, resample_ratio, target_ratio, max_chunk_size,
+        /// needed_input_size, current_buffer_fill.
+        pub fn verif_state(&self) -> Vec<u64> {
+            vec![
+                self.chunk_size as u64,
+                self.last_index.to_bits(),
+                self.resample_ratio.to_bits(),
+                self.target_ratio.to_bits(),
+                self.max_chunk_size as u64,
+                self.needed_input_size as u64,
+                self.current_buffer_fill as u64,
+            ]
+        }
+        pub fn verif_buffers(&self) -> &Vec<Vec<T>> {
+            &self.buffer
+        }
+        pub fn verif_mask(&self) -> &Vec<bool> {
+            &self.channel_mask
+        }
+        pub fn verif_interpolator(&self) -> &dyn SincInterpolator<T> {
+            self.interpolator.as_ref()
+        }
+    }
+}
